@@ -32,6 +32,8 @@ Your task:
 Leave the worktree with your change APPLIED at the end.
 
 Report back (briefly): the diff, what is needed to trigger it, and the three observations of step 5. Do not try several properties; only this one. Keep the change to a few lines.
+
+Separately, and only as a by-product: if while reading the code you notice that the UNCHANGED library already seems to violate the property for some valid input (or raises where it should not), describe that input in two or three sentences at the very end of your report under the heading "Observation about the unchanged code". Do not spend more than a few minutes on this and do not let it replace the task above.
 '''
 for P in sorted(props):
     prev = []
